@@ -2065,10 +2065,10 @@ fn process_file_context<T: Read + Write>(
             //info!(log, "stream #{} did send {:?}", stream.id, stream.msgs_sent);
         }
         // for queries (not streams), check whether query is done:
-        if ((
-            ((!got_new_msgs && !(fc.collect_mode==CollectMode::OnePassStreams))
-                ||(parser_thread_finished && fc.collect_mode == CollectMode::OnePassStreams)) 
-            && (stream.all_msgs_last_processed_len >= all_msgs_len)) // no new msgs and all processed
+        // a query is done only if the parser has finished. Just no new msgs during this call doesn't mean
+        // that no more msgs will come (e.g. query sent before the first msgs have been parsed)
+        if ((parser_thread_finished
+            && (stream.all_msgs_last_processed_len >= all_msgs_len)) // parser finished and all processed
             || (stream.msgs_sent.end >= stream.msgs_to_send.end)) // or window size achieved
             && !stream.is_stream
         {
